@@ -122,7 +122,7 @@ func checkHistory(c *Ctx, sh *Shape, id, h string, page, codec int, pool []*drem
 	c.Out.Count("cases", 1)
 	bad := func(kind, detail string) {
 		c.Out.Violate(Violation{Prop: "C06", Key: "shape=" + sh.Name + ";kind=" + kind, Case: id, Shape: sh.Name,
-			Detail: fmt.Sprintf("history %s (A=Add, W=Write, then Close), page size %d, %s: %s", h, page, CodecNames[codec], detail)})
+			Detail: fmt.Sprintf("history %s (A=Add, W=Write, then Close), page size %d, %s: %s", shortH(h), page, CodecNames[codec], detail)})
 	}
 	sink := NewSink()
 	out := RunHistory(sh, sink, page, codec, opsOf(h, pool), true)
@@ -282,4 +282,78 @@ func runC06(c *Ctx) {
 		}
 	}
 	c.Out.Max("max_exhaustive_history_length", int64(maxLen))
+	runC06Big(c)
+}
+
+// runC06Big: histories whose batches and pages hold more than 8192 records
+// (level runs whose headers need three bytes, pages of tens of KiB), with
+// records of one uniform structure (one long run per level stream) and with
+// the mixed pool.
+func runC06Big(c *Ctx) {
+	type big struct {
+		name string
+		page int
+		h    []int // > 0: that many Adds, 0: Write
+	}
+	hs := []big{
+		{"5,W,W,8192,W,5", 10000, []int{5, 0, 0, 8192, 0, 5}},
+		{"8193,W,W,2,W", 8192, []int{8193, 0, 0, 2, 0}},
+		{"8191,W,8192,W", 8192, []int{8191, 0, 8192, 0}},
+		{"16385,W", 8192, []int{16385, 0}},
+	}
+	for _, sh := range c.SelShapes() {
+		s := sh.Schema()
+		for _, codec := range []int{0, 1} {
+			for _, b := range hs {
+				for _, kind := range []string{"uniform", "mixed"} {
+					id := fmt.Sprintf("%s/%s/big/%s/page=%d/h=%s", sh.Name, CodecNames[codec], kind, b.page, b.name)
+					if !c.Take(id) {
+						continue
+					}
+					var sb strings.Builder
+					adds := 0
+					for _, n := range b.h {
+						if n == 0 {
+							sb.WriteByte('W')
+						} else {
+							sb.WriteString(strings.Repeat("A", n))
+							adds += n
+						}
+					}
+					var pool []*dremel.Tree
+					if kind == "uniform" {
+						pool = GenRecords(s, GenUniform, adds, Rng(c.Seed, "c06big/"+id), false)
+					} else {
+						base := recordPool(s, 256)
+						for i := 0; i < adds; i++ {
+							pool = append(pool, base[i%len(base)])
+						}
+					}
+					c.Out.Count("big_histories", 1)
+					checkHistory(c, sh, id, sb.String(), b.page, codec, pool)
+				}
+			}
+		}
+	}
+}
+
+// shortH abbreviates long histories: AAAAAAAAAAAA -> A×12.
+func shortH(h string) string {
+	if len(h) <= 300 {
+		return h
+	}
+	var sb strings.Builder
+	for i := 0; i < len(h); {
+		j := i
+		for j < len(h) && h[j] == h[i] {
+			j++
+		}
+		if j-i > 3 {
+			fmt.Fprintf(&sb, "%c×%d ", h[i], j-i)
+		} else {
+			sb.WriteString(h[i:j] + " ")
+		}
+		i = j
+	}
+	return sb.String()
 }
